@@ -565,7 +565,7 @@ func (d *hoDriver) mutatedProcess(h int64, round, proposer int, now time.Time, v
 		}
 		return tx
 	}
-	muts := []string{"reorder", "dupBlock", "dropBlock", "blockLater", "wrongParent", "wrongNumber", "wrongBeacon", "wrongProposer", "wrongRecipient",
+	muts := []string{"reorder", "dupBlock", "dropBlock", "blockLater", "blockLaterValid", "blockPairLater", "blockPairFirst", "wrongParent", "wrongNumber", "wrongBeacon", "wrongProposer", "wrongRecipient",
 		"recipientPadded", "recipientShort", "sysAdded", "sysRemoved", "sysAltered", "countByte", "reqGarbage", "gas0", "gas2", "futureTime", "engineInvalid", "engineSyncing", "tooMany", "empty",
 		"garbageRest", "timeoutWrong", "badSig", "blob"}
 	mut := muts[r.Intn(len(muts))]
@@ -581,6 +581,33 @@ func (d *hoDriver) mutatedProcess(h int64, round, proposer int, now time.Time, v
 	case "dupBlock", "blockLater":
 		txs = append(txs, honest[0])
 		restOk = false // the same transaction twice: the second one no longer has a valid account sequence
+	case "blockLaterValid", "blockPairLater", "blockPairFirst":
+		// further execution-block messages in transactions that are otherwise admissible (right signer, next sequence,
+		// timeout = height): only the placement rule - first transaction, alone in it, only one - stands against them
+		v := c.KR.Vals[proposer]
+		_, seq, ok := c.Account(v.Addr)
+		if !ok {
+			return nil
+		}
+		mk := func(n int, sq uint64) []byte {
+			var msgs []sdk.Msg
+			for i := 0; i < n; i++ {
+				msgs = append(msgs, &goatmodtypes.MsgNewEthBlock{Proposer: sdk.MustBech32ifyAddressBytes("goat", v.Addr), Payload: clone()})
+			}
+			bz, err := c.SignTx(v.Priv, msgs, sim.SignOpts{TimeoutHeight: uint64(h), Seq: &sq})
+			if err != nil {
+				panic(err)
+			}
+			return bz
+		}
+		switch mut {
+		case "blockLaterValid":
+			txs = append(txs, mk(1, seq+1))
+		case "blockPairLater":
+			txs = append(txs, mk(2, seq+1))
+		case "blockPairFirst":
+			txs = append([][]byte{mk(2, seq)}, rest...)
+		}
 	case "dropBlock":
 		txs = txs[1:]
 		if len(txs) == 0 {
